@@ -948,15 +948,19 @@ func (a *adapter) AuthUpdRecord(uid t.Uid, scheme, unique string, authLvl auth.L
 	}
 	sql := "UPDATE auth SET " + strings.Join(params, ",") + " WHERE userid=? AND scheme=?"
 	resp, err := a.db.ExecContext(ctx, sql, args...)
-	if isDupe(err) {
-		return t.ErrDuplicate
+	if err != nil {
+		if isDupe(err) {
+			return t.ErrDuplicate
+		}
+		// resp is nil when err is not.
+		return err
 	}
 
 	if count, _ := resp.RowsAffected(); count <= 0 {
 		return t.ErrNotFound
 	}
 
-	return err
+	return nil
 }
 
 // Retrieve user's authentication record
